@@ -160,6 +160,23 @@ def families(tier):
         out.append(('bin', '=', ('bin', '+', b_, num(1)), ('bin', '+', num(1), b_)))
         out.append(('bin', '=', ('bin', '-', ('bin', '+', b_, num(1)), b_), num(1)))
         out.append(('bin', '>', ('bin', '*', b_, num(2)), b_))
+    # F10b: the folded sum / length of a long literal range is exact: equated with the exact integer (closed form computed
+    # here with integer arithmetic) and with that integer +- 1, for upper bounds around 2**26.5 (where n*(a+b) passes
+    # 2**53), 2**31, 2**32, 3e9, 2**53, 2**63, 2**64 and three lower bounds, every bracket form
+    def I(n_):
+        return ('lit', str(n_), n_) if n_ >= 0 else ('un', '-', ('lit', str(-n_), -n_))
+
+    for hi in (94906265, 94906267, 134217729, 2147483647, 4294967295, 3000000001, 9007199254740993, 9223372036854775807, 18446744073709551615):
+        for lo in (0, 1, -3):
+            for fl in RANGE_FLAGS:
+                a_, b__ = lo + (1 if fl[0] else 0), hi - (1 if fl[1] else 0)
+                exact, count = (a_ + b__) * (b__ - a_ + 1) // 2, b__ - a_ + 1
+                rng = ('range', I(lo), I(hi), fl[0], fl[1])
+                for delta in (0, 1, -1):
+                    out.append(('bin', '=', ('call', 'sum', (rng,)), I(exact + delta)))
+                out.append(('bin', '=', ('call', 'len', (rng,)), I(count)))
+                out.append(('bin', '<', ('call', 'sum', (rng,)), I(exact)))
+                out.append(('bin', '=', ('bin', '-', ('call', 'sum', (rng,)), I(exact)), num(0)))
     # F11: power laws that only hold for some bases / exponents: towers, products and quotients of powers with
     # literal exponents of every kind (even, odd, fractional, negative, 0, 1), roots of squares
     exps = [num(2), num(3), ('lit', '0.5', 0.5), ('lit', '1.5', 1.5), ('un', '-', num(1)), ('un', '-', num(2)), num(1), num(0), num(4)]
